@@ -162,3 +162,25 @@ MUTANTS += [
          old="    def _backward(f, f_x0i, x0i, h):\n        return f_x0i - f(x0i - h)",
          new="    def _backward(f, f_x0i, x0i, h):\n        return f_x0i - f(x0i - h) + 0 * f(x0i + 1e-3 * h)"),
 ]
+
+MUTANTS += [
+    dict(id='c12-cosh-z2-sign', props=['C12', 'C01'], file=MC,
+         old="        z2 = np.sinh(self.z1) * np.sin(self.z2)\n        return Bicomplex(z1, z2)\n\n    def sinh(self):",
+         new="        z2 = -np.sinh(self.z1) * np.sin(self.z2)\n        return Bicomplex(z1, z2)\n\n    def sinh(self):"),
+    dict(id='c12-mul-cross-term', props=['C12', 'C01'], file=MC,
+         old="                         self.z1 * other.z2 + self.z2 * other.z1)", new="                         self.z1 * other.z2 - self.z2 * other.z1)"),
+    dict(id='c12-argc-pi-sign', props=['C12', 'C01'], file=MC,
+         old="np.where(0 <= z2.real, 1, -1))", new="np.where(0 < z2.real, 1, -1))"),
+    dict(id='c12-rsub', props=['C12'], file=MC,
+         old="        return -self.__sub__(other)", new="        return self.__sub__(other)"),
+    dict(id='c12-undo-f5-expm1', props=['C12', 'C01'], file=MC,
+         old="        return Bicomplex(expz1 * np.cos(self.z2) - 2 * np.sin(0.5 * self.z2) ** 2,\n                         (expz1 + 1) * np.sin(self.z2))",
+         new="        return Bicomplex(expz1 * np.cos(self.z2), expz1 * np.sin(self.z2))"),
+    dict(id='c12-arctan-half', props=['C12', 'C01'], file=MC,
+         old="        tmp = J * (arg1.log() - arg2.log()) * 0.5", new="        tmp = J * (arg1.log() - arg2.conjugate().conjugate().log()) * 0.5 * (1 + 1e-9)"),
+    dict(id='c12-exp2-base', props=['C12'], file=MC,
+         old="        return np.exp(self * np.log(2))", new="        return np.exp(self * 0.6931471)"),
+    dict(id='c12-sin-second-order', props=['C12', 'C01'], file=MC,
+         old="        z1 = np.cosh(self.z2) * np.sin(self.z1)\n        z2 = np.sinh(self.z2) * np.cos(self.z1)",
+         new="        z1 = np.sin(self.z1)\n        z2 = np.sinh(self.z2) * np.cos(self.z1)"),
+]
